@@ -6,7 +6,13 @@ enumerates the bounded grammar x small databases in layers; TLC checks that the 
 definition on every case and exports the cases with Eval, PlanEval of the code AS WRITTEN and the deviation rules that
 explain a difference.  cmd/c11 concretises every exported case (hostile strings with decoys, numbers, timestamps),
 stores the spans (directly or through the real writer routes), sends the TraceQL text through the real reader route,
-lets chsql execute the generated SQL and compares the answer with Eval.  A verdict only comes from the real answer."""
+lets chsql execute the generated SQL and compares the answer with Eval.  A verdict only comes from the real answer.
+
+TraceQLSem part 3 (RunEval) models the evaluator: the complexity query decides between one execution of the plan and
+Portions(cx) executions of the SAME plan over the hash classes of the trace ids (complex_request_processor.go).  A case
+carries the complexity answer cx and the hash class of every trace; the driver answers the complexity statement with cx
+(after chsql has executed it), picks trace ids of the wanted classes, and the merged answer of the portions has to be
+what Eval accepts; the number of executions has to be TraceQLSem!Portions(cx)."""
 import json
 import os
 import random
@@ -26,7 +32,7 @@ SPECDIR = os.path.join(vlib.SPEC, 'query')
 # duration terms), 'tagsv2' (key/val outside GROUP BY), 'attrless_le' ({}: window end inclusive for the limit),
 # 'intersect' (&& as INTERSECT of span rows), 'drop3' (selector after `S op S &&` not planned), 'chain3' (nested
 # combination without timestamp_ns), 'prec' (`a && b || c` right-nested).
-CODE_DEVIATIONS = ['distinct']
+CODE_DEVIATIONS = ['distinct', 'portion_from']
 
 SIGNATURE = {
     'emptywhere': 'sql-invalid|selector-without-attribute-term-renders-empty-where-group',
@@ -38,6 +44,7 @@ SIGNATURE = {
     'intersect': 'wrong-result|selector-and-intersects-span-rows-and-max-timestamp',
     'attrless_le': 'wrong-result|empty-selector-limit-counts-span-at-window-end',
     'distinct': 'wrong-result|empty-selector-distinct-before-order-by',
+    'portion_from': 'wrong-result|portion-window-start-moved-to-start-of-oldest-kept-trace',
 }
 WHAT = {
     'emptywhere': 'a selector whose terms are all intrinsic `duration` comparisons (no attribute / name term, no aggregated '
@@ -57,6 +64,10 @@ WHAT = {
     'attrless_le': 'attrless.go picks the `limit` trace ids with timestamp_ns <= end (inclusive) and then reads spans with '
                    'timestamp_ns < end: a trace whose only candidate span starts exactly at `end` uses up a limit slot',
     'distinct': 'attrless.go SELECT DISTINCT trace_id ... ORDER BY timestamp_ns DESC LIMIT n ranks a trace by an arbitrary one of its spans',
+    'portion_from': 'complex_request_processor.go ProcessComplexReqIteration: when a portion of a complex request (complexity query above COMPLEXITY_THRESHOLD = 1e7: two or more portions) answers '
+                    'exactly `limit` traces, the next portion is evaluated from the earliest start_time_unix_nano of those traces instead of '
+                    'the start of the window: spans BEFORE the window are selected when a kept trace began before it, and older matching '
+                    'spans of a trace first seen by a later portion are cut off (span set and aggregates of that trace are wrong)',
 }
 
 SHAPES = {1: ['s1', 'p1'], 2: ['and2', 'or2', 'pand2'], 3: ['and3', 'or3', 'ao', 'oa', 'pao', 'apo', 'poa', 'opa'],
@@ -96,6 +107,11 @@ def rand_sel(rnd, allow_empty):
     return {'sh': rnd.choice(SHAPES[n]), 't': ts, 'agg': agg}
 
 
+THRESHOLD = 10000000  # TraceQLSem!Threshold = reader/traceql/transpiler COMPLEXITY_THRESHOLD
+CX_OF_NP = {0: [0, 0, 0, THRESHOLD - 1], 1: [THRESHOLD], 2: [THRESHOLD + 1, 2 * THRESHOLD - 1, 2 * THRESHOLD],
+            3: [2 * THRESHOLD + 1, 3 * THRESHOLD]}  # Portions(cx) = 0 below the threshold, ceil(cx / threshold) otherwise
+
+
 def rand_case(rnd):
     r = rnd.random()
     nsel = 1 if r < 0.7 else (2 if r < 0.95 else 3)
@@ -111,7 +127,13 @@ def rand_case(rnd):
     atoms = ['n1', 'n3', 'sx', 'sy', 'none']
     db = [[{'a': rnd.choice(atoms), 'b': rnd.choice(atoms), 'nm': rnd.choice('pq'), 'dur': rnd.choice([1, 3]), 'ts': rnd.randint(0, 5)}
            for _ in range(rnd.randint(1, 3))] for _ in range(rnd.randint(1, 3))]
-    return {'q': q, 'db': db}
+    # the evaluator: one execution (60%), or 1..3 portions with a random hash class per trace
+    np = 0
+    if q['kind'] == 'search' and all(s['sh'] != 'empty' for s in sels) and rnd.random() < 0.4:
+        np = rnd.choice([1, 2, 2, 3, 3])
+    cx = rnd.choice(CX_OF_NP[np])
+    part = [rnd.randrange(np) if np else 0 for _ in db]
+    return {'q': q, 'db': db, 'cx': cx, 'part': part}
 
 
 def tla_case(c):
@@ -130,10 +152,10 @@ def tla_case(c):
     qs = 'Query(%s,<<%s>>,<<%s>>,%d,%d,%d,%s)' % (q(qq['kind']), ','.join(sel(s) for s in qq['sels']), ','.join(q(o) for o in qq['ops']),
                                                  qq['from'], qq['to'], qq['limit'], q(qq['vkey']))
     db = '<<%s>>' % ','.join('<<%s>>' % ','.join('Span(%s,%s,%s,%d,%d)' % (q(s['a']), q(s['b']), q(s['nm']), s['dur'], s['ts']) for s in tr) for tr in c['db'])
-    return 'RC(%s,%s)' % (qs, db)
+    return 'RCP(%s,%s,%d,<<%s>>)' % (qs, db, c['cx'], ','.join(str(x) for x in c['part']))
 
 
-def run_module(layers, thorough, mods, seed, rand_cases, flags):
+def run_module(layers, thorough, mods, seed, rand_cases, flags, port_every):
     lines = ['---- MODULE MC_TraceQLRun ----', 'EXTENDS MC_TraceQL',
              'cDay == <<0, 0, 1, 1, 1, 2>>',
              'cLayers == %s' % vlib.tla_value(set(layers)),
@@ -151,20 +173,22 @@ CONSTANTS
   Seed = %d
   RandCases <- cRand
   CodeFlags <- cFlags
+  PortEvery = %d
 INVARIANTS CheckCase
 CHECK_DEADLOCK FALSE
-''' % ('TRUE' if thorough else 'FALSE', seed % 9973)
+''' % ('TRUE' if thorough else 'FALSE', seed % 9973, port_every)
     return '\n'.join(lines), cfg
 
 
 def model_check(tier, seed, sd):
     thorough = tier != 'quick'
-    layers = ['term', 'bool', 'agg', 'chain', 'win', 'rand']
-    mods = ({'term': 1, 'bool': 2, 'agg': 1, 'chain': 1, 'win': 1, 'rand': 1} if not thorough else
-            {'term': 1, 'bool': 5, 'agg': 4, 'chain': 3, 'win': 1, 'rand': 1})
+    layers = ['term', 'bool', 'agg', 'chain', 'win', 'portion', 'rand']
+    mods = ({'term': 1, 'bool': 2, 'agg': 1, 'chain': 1, 'win': 1, 'portion': 2, 'rand': 1} if not thorough else
+            {'term': 1, 'bool': 5, 'agg': 4, 'chain': 3, 'win': 1, 'portion': 1, 'rand': 1})
+    port_every = 6 if not thorough else 3
     rnd = random.Random(seed * 1000003 + 11)
     rand_cases = [rand_case(rnd) for _ in range(1000 if not thorough else 8000)]
-    mod, cfg = run_module(layers, thorough, mods, seed, rand_cases, CODE_DEVIATIONS)
+    mod, cfg = run_module(layers, thorough, mods, seed, rand_cases, CODE_DEVIATIONS, port_every)
     mp, cp = os.path.join(sd, 'MC_TraceQLRun.tla'), os.path.join(sd, 'MC_TraceQLRun.cfg')
     open(mp, 'w').write(mod)
     open(cp, 'w').write(cfg)
@@ -212,6 +236,7 @@ def model_check(tier, seed, sd):
             raise vlib.Infra('the specification cannot explain a difference between PlanEval and Eval with its own deviation rules: %s' % cands)
         return {'states': res['distinct'], 'transitions': res['generated'], 'wall_s': round(res['wall'], 1), 'exported': n,
                 'exported_per_layer': per_layer, 'export_moduli': mods, 'rand_cases': len(rand_cases),
+                'portions_every_nth_case_of_other_layers': port_every,
                 'candidates_by_explanation': cands, 'thorough_bounds': thorough}, cases_path
     finally:
         vlib.tlc_cleanup(res)
@@ -279,11 +304,13 @@ def run(tier):
         need = ['shape:' + s for ss in SHAPES.values() for s in ss] + ['shape:empty'] + \
                ['agg:' + a for a in ('count', 'avg', 'min', 'max', 'sum')] + ['chain:&&', 'chain:||', 'kind:tags', 'kind:values'] + \
                ['op:str' + o for o in STR_OPS] + ['op:num' + o for o in CMP_OPS] + ['op:dur' + o for o in CMP_OPS] + \
-               ['pfx:.', 'pfx:span.', 'pfx:resource.']
+               ['pfx:.', 'pfx:span.', 'pfx:resource.'] + \
+               ['np:0', 'np:1', 'np:2', 'np:3', 'split:1-of-2', 'split:2-of-2', 'split:2-of-3', 'split:3-of-3'] + \
+               ['cx:%d' % x for x in (THRESHOLD - 1, THRESHOLD, THRESHOLD + 1, 2 * THRESHOLD - 1, 2 * THRESHOLD, 2 * THRESHOLD + 1, 3 * THRESHOLD)]
         missing = [f for f in need if not features.get(f)]
         if missing:
             raise vlib.Infra('vacuous coverage: grammar features never exercised: %s' % missing)
-        for lay in ('term', 'bool', 'agg', 'chain', 'win', 'rand'):
+        for lay in ('term', 'bool', 'agg', 'chain', 'win', 'portion', 'rand'):
             if not by_layer.get(lay):
                 raise vlib.Infra('vacuous coverage: layer %s ran no case' % lay)
         if not (paths.get('zipkin') and paths.get('otlp')):
@@ -301,9 +328,12 @@ def run(tier):
             case = det.get('case') or {}
             replay = {'kind': kind, 'signature': sig, 'traceql': m['traceql'], 'stored_through': m['path'],
                       'window_unix_s': det.get('window'), 'limit': det.get('limit'), 'data': det.get('data'),
+                      'complexity_answer': det.get('complexity_answer'), 'portions': det.get('portions'),
+                      'hash_class_of_trace': det.get('hash_class_of_trace'),
                       'sql': obs.get('sql'), 'expected_any_of_trace_sequences': (case.get('def') or {}).get('seqs'),
                       'expected_spans_per_trace': (case.get('def') or {}).get('ms'), 'expected_strings': (case.get('def') or {}).get('strs'),
-                      'observed': {k: obs.get(k) for k in ('status', 'err', 'err_text', 'seq', 'spans', 'strs', 'unknown', 'body')},
+                      'observed': {k: obs.get(k) for k in ('status', 'err', 'err_text', 'seq', 'spans', 'strs', 'unknown', 'body',
+                                                           'complexity_statements', 'executions', 'filtered_executions')},
                       'abstract_case': case, 'variant': det.get('variant'), 'seed': seed,
                       'how': 'go build -tags verif ./cmd/c11 ; c11 -cases <file with abstract_case as one JSON line> -out r.json -seed %d' % seed}
             name = ''.join(ch if ch.isalnum() else '_' for ch in sig)[:100]
@@ -348,6 +378,16 @@ def run(tier):
             raise vlib.Infra('%d differences between PlanEval and Eval found by TLC do not reproduce against the real planner '
                              '(the answer conforms to the definition); deviation rules involved: %s. If the planner was repaired, remove the '
                              'rule from CODE_DEVIATIONS / TraceQLSem!AllFlags. Example: %s' % (len(notrep), ex, notrep[0]['traceql']))
+        # the evaluator executed the plan another number of times than TraceQLSem!Portions says: the property does not
+        # say how often the plan is executed, so this is no verdict; but the cases then do not cover the portions
+        # they claim to cover (the model of the evaluator's decision misrepresents the code, or the complexity
+        # statement was not recognised by the driver)
+        dec = [m for m in mism if m['verdict'] == 'decision']
+        if dec and not any(v['signature'].startswith('unexplained|') for v in viols):
+            det = dec[0].get('detail') or {}
+            raise vlib.Infra('%d requests were not executed the way TraceQLSem!RunEval decides (one execution below COMPLEXITY_THRESHOLD, '
+                             'Portions(cx) executions with random filter otherwise): %s; complexity answer %s, expected portions %s; query %s'
+                             % (len(dec), dec[0].get('diff'), det.get('complexity_answer'), det.get('portions'), dec[0]['traceql']))
         samples = [s for r in results for s in r.get('samples', [])][:2]
         samples = [{'traceql': s['traceql'], 'stored_through': s['path'], 'data': s['detail']['data'],
                     'expected_seqs': s['detail']['case']['def']['seqs'], 'observed_seq': s['detail']['observed']['seq'],
@@ -370,6 +410,9 @@ def run(tier):
                     '"most recent": the traces kept under `limit` and their order are accepted if consistent with the latest matched span, the '
                     'start of the trace or the start of the trace inside the window (ties either way)',
                     'for several selectors only the set/order of traces is compared exactly; reported spans must be a non-empty subset of the spans matched by the selectors',
-                    'groupArray(100) caps (more than 100 spans per trace) and the >= 10M-row "complex request" path are outside the bounds']}
+                    'the complexity query is executed by chsql and then answered with the number the case scripts (no database has 1e7 rows); '
+                    'trace ids are chosen so that cityHash64(trace_id) % portions is the hash class of the case',
+                    'tags / values requests above the complexity threshold answer all tags (documented degradation): always run below it',
+                    'groupArray(100) caps (more than 100 spans per trace) are outside the bounds']}
     finally:
         shutil.rmtree(sd, ignore_errors=True)
